@@ -96,7 +96,7 @@ func findBranch(o *StepObs, name int) *BranchObs {
 }
 
 func viewOf(r *Real, ref *refState, obs *StepObs, nvals int) *View {
-	v := &View{Tips: map[int]int{}, Live: map[int][]int{}, Vecs: map[int][]int{}, Gone: map[int]bool{}, NCommits: len(r.Commits), NObjs: r.NextObj - 1,
+	v := &View{Tips: map[int]int{}, Live: map[int][]int{}, Vecs: map[int][]int{}, Gone: map[int]bool{}, Objs: map[int][]ObjObs{}, NCommits: len(r.Commits), NObjs: r.NextObj - 1,
 		ObjsAt: ref.objsAt, Parent: r.Parent, NVals: nvals, LastRevert: ref.lastRevert}
 	v.Branches = append(v.Branches, r.Names...)
 	for _, b := range r.Names {
@@ -109,6 +109,7 @@ func viewOf(r *Real, ref *refState, obs *StepObs, nvals int) *View {
 				continue
 			}
 			v.Live[b.Name] = liveOf(b)
+			v.Objs[b.Name] = b.Objs
 			for _, o := range b.Objs {
 				if o.Vec {
 					v.Vecs[b.Name] = append(v.Vecs[b.Name], o.ID)
